@@ -735,6 +735,9 @@ struct Enc<'r> {
     max_args: usize,
     n_stems: usize,
     implicit_vstem: bool,
+    /// the pen is at integer coordinates throughout the glyph (integer values only, and not the
+    /// component of a seac with a fractional offset)
+    int_pen: bool,
     fail: Option<String>,
 }
 
@@ -1108,7 +1111,12 @@ impl<'r> Enc<'r> {
                     let dx = sum(&[&c0[0], &c0[2], &c0[4], &c1[0], &c1[2]]);
                     let dy = sum(&[&c0[1], &c0[3], &c0[5], &c1[1], &c1[3]]);
                     let exact = c0.iter().chain(c1[..4].iter()).all(|v| v.is_integer());
+                    // A tie |dx| == |dy| is the dy form by TN 5177, but only decidable when the
+                    // interpreter's pen arithmetic is exact: an interpreter that tracks absolute f32
+                    // positions loses the tie to rounding once the pen is at a fractional position.
+                    let fragile_tie = exact && dx.d.abs() == dy.d.abs() && !self.int_pen;
                     match abs_gt(&dx, &dy, exact, &self.tuples) {
+                        _ if fragile_tie => {}
                         Some(true) if c1[5].same(&dy.neg()) => {
                             for _ in 0..4 {
                                 cand.push(("flex1:dx", 2));
@@ -1353,7 +1361,7 @@ struct Encoded {
     max_args: usize,
 }
 
-fn encode_glyph(rng: &mut Rng, g: &Glyph, cff2: bool, k: Option<usize>, tuples: &[Vec<f64>]) -> Result<Encoded, String> {
+fn encode_glyph(rng: &mut Rng, g: &Glyph, cff2: bool, k: Option<usize>, tuples: &[Vec<f64>], int_origin: bool) -> Result<Encoded, String> {
     let mut e = Enc {
         rng,
         toks: Vec::new(),
@@ -1369,6 +1377,7 @@ fn encode_glyph(rng: &mut Rng, g: &Glyph, cff2: bool, k: Option<usize>, tuples: 
         max_args: 0,
         n_stems: 0,
         implicit_vstem: false,
+        int_pen: int_origin && g.all_integer(),
         fail: None,
     };
     e.glyph(g);
@@ -1816,9 +1825,10 @@ fn build_font(cx: &mut Ctx, rng: &mut Rng, dir: Option<&Directed>) -> Result<Bui
     }
 
     // encode
+    let seac_fractional = slots.iter().any(|s| s.glyph.as_ref().and_then(|g| g.seac.as_ref()).map_or(false, |sc| !sc.adx.is_integer() || !sc.ady.is_integer()));
     for s in slots.iter_mut() {
         if let Some(g) = &s.glyph {
-            let e = encode_glyph(rng, g, cff2, s.k, &s.tuples)?;
+            let e = encode_glyph(rng, g, cff2, s.k, &s.tuples, !seac_fractional)?;
             s.enc = Some(e);
         }
     }
